@@ -154,7 +154,10 @@ def gen_spec(rng, nmax=300, dec=None, with_vel=None, force=None):
             'schedule': gen_schedule(rng, n) if rng.random() < 0.35 else None,
             # how the writer's attributes are used: set once before writing, set to something else first and then to the
             # final value, or (box and title, which go to the file's frame) set after the records were written
-            'attr_history': gen_attr_history(rng, force)}
+            'attr_history': gen_attr_history(rng, force),
+            # something goes wrong and is handled: before these records (never the first) the caller offers a malformed
+            # record - too few fields, velocities unlike the file's - catches the refusal and carries on with the writer
+            'refusals': sorted({int(k) for k in rng.integers(1, n, int(rng.integers(1, 4)))}) if (n >= 2 and rng.random() < 0.3) else []}
 
 
 def gen_attr_history(rng, force):
@@ -220,6 +223,43 @@ def write_spec(spec, path, GroFile=None, upto=None, close=True):
         g.position_format = (spec['dec'] + 5, spec['dec'])
     recs = spec['records'] if upto is None else spec['records'][:upto]
     rows = [record_list(r, spec.get('as_tuple')) for r in recs]
+    refusals = set(spec.get('refusals') or [])
+    if refusals:
+        real_g, has_vel = g, spec['with_vel']
+
+        class _Offering:
+            """The writer, with the caller's handled mistakes woven in (see 'refusals')."""
+            def __init__(self):
+                self.k = 0
+
+            def _mistake(self):
+                if self.k in refusals:
+                    refusals.discard(self.k)
+                    base = list(rows[self.k])
+                    bad = base[:5] if self.k % 2 else (base[:7] if has_vel else base + [0.1, 0.2, 0.3])
+                    try:
+                        if self.k % 3 == 0:
+                            real_g.writelines([bad])
+                        else:
+                            real_g.writeline(bad)
+                    except Exception:  # noqa
+                        pass
+
+            def writeline(self, row):
+                self._mistake()
+                real_g.writeline(row)
+                self.k += 1
+
+            def writelines(self, batch):
+                batch = list(batch)
+                if batch:
+                    self._mistake()
+                real_g.writelines(batch)
+                self.k += len(batch)
+
+            def __getattr__(self, name):
+                return getattr(real_g, name)
+        g = _Offering()
     if spec.get('schedule'):
         # a sequence of writer calls: ('line',) one record with writeline, ('lines', k) k records with writelines
         k = 0
@@ -239,6 +279,8 @@ def write_spec(spec, path, GroFile=None, upto=None, close=True):
     else:
         for row in rows:
             g.writeline(row)
+    if refusals is not None and not isinstance(g, type(None)) and hasattr(g, '_mistake'):
+        g = real_g
     if late:
         if spec['box'] is not None:
             g.box_matrix = np.array(spec['box'])
